@@ -598,6 +598,12 @@ impl Cursor for BlockCursor {
             return Err(corruption_block_with_zero_restarts());
         }
 
+        // A block sealed without entries has nothing to seek to.
+        if self.block.restarts_boundary == 0 {
+            self.position = CursorPosition::Last;
+            return Ok(());
+        }
+
         // Binary search to the correct restart point.
         let mut left: usize = 0usize;
         let mut right: usize = self.block.num_restarts - 1;
@@ -731,6 +737,11 @@ impl Cursor for BlockCursor {
     fn next(&mut self) -> Result<(), SError> {
         // We start with the first block.
         if let CursorPosition::First = self.position {
+            // A block sealed without entries has nothing before its restart points.
+            if self.block.restarts_boundary == 0 {
+                self.position = CursorPosition::Last;
+                return Ok(());
+            }
             self.seek_restart(0)?;
             return Ok(());
         }
